@@ -2,7 +2,7 @@
 (declare-datatype Slice ((mk_slice (sl_arr Int) (sl_off Int) (sl_len Int) (sl_cap Int))))
 (declare-datatype Iface ((mk_iface (itype Int) (ival Int))))
 (declare-const allocbase Int)
-(define-fun wfSlice ((s Slice)) Bool (and (>= (sl_len s) 0) (>= (sl_cap s) (sl_len s)) (>= (sl_off s) 0) (>= (sl_arr s) 0) (<= (sl_arr s) allocbase) (=> (= (sl_arr s) 0) (= (sl_len s) 0))))
+(define-fun wfSlice ((s Slice)) Bool (and (>= (sl_len s) 0) (>= (sl_cap s) (sl_len s)) (>= (sl_off s) 0) (>= (sl_arr s) 0) (=> (= (sl_arr s) 0) (= (sl_len s) 0))))
 
 ; ---- strings ----
 (define-fun hasPrefix ((s String) (p String)) Bool (str.prefixof p s))
@@ -101,3 +101,35 @@
 (declare-fun cutBefore (String String) String)
 (declare-fun cutAfter (String String) String)
 (declare-fun cutFound (String String) Bool)
+
+; ---- ignore rules: regular expressions as opaque values ----
+(declare-fun reSem (Int) String)            ; the expression a *regexp.Regexp was compiled from
+(declare-fun reCompiles (String) Bool)      ; regexp.Compile accepts the expression
+(declare-fun reMatch (String String) Bool)  ; MatchString of the compiled expression
+(declare-fun tr (String) String)            ; the regular expression (*rule).compile builds for a rule value
+; what (*rule).match answers for a rule with these fields
+(define-fun ruleMatchF ((val String) (regex Int) (p String)) Bool
+  (ite (not (= regex 0)) (reMatch (reSem regex) p) (and (reCompiles (tr val)) (reMatch (tr val) p))))
+(declare-const anyIndex Int)                ; an arbitrary index (skolem constant for "for all indices")
+
+; ---- the glob-to-regexp token table of (*rule).compile (property C03), as a prefix function ----
+(declare-fun readerContent (Int) String)       ; strings.NewReader(s): content of the reader
+(declare-fun trPrefix (String Int) String)     ; translation of the first k characters of a rule value (k on a token boundary)
+(define-fun chAt ((s String) (k Int)) Int (ite (and (<= 0 k) (< k (str.len s))) (str.to_code (str.at s k)) (- 1)))
+; characters that are special in a regular expression but plain in a glob pattern: . $ + ( ) | { } ^
+(define-fun isGlobLiteralMeta ((c Int)) Bool (or (= c 46) (= c 36) (= c 43) (= c 40) (= c 41) (= c 124) (= c 123) (= c 125) (= c 94)))
+; length of the token starting at k
+(define-fun tokLen ((s String) (k Int)) Int
+  (ite (and (= (chAt s k) 42) (= (chAt s (+ k 1)) 42)) (ite (= (chAt s (+ k 2)) 47) 3 2)
+  (ite (and (= (chAt s k) 92) (< (+ k 1) (str.len s))) 2 1)))
+; regular-expression piece for the token starting at k
+(define-fun tokPiece ((s String) (k Int)) String
+  (ite (and (= (chAt s k) 42) (= (chAt s (+ k 1)) 42))
+       (ite (= (+ k (ite (= (chAt s (+ k 2)) 47) 3 2)) (str.len s)) ".*" "(.*/)?")
+  (ite (= (chAt s k) 42) "[^/]*"
+  (ite (= (chAt s k) 63) "[^/]"
+  (ite (isGlobLiteralMeta (chAt s k)) (str.++ "\u{5c}" (str.at s k))
+  (ite (= (chAt s k) 92) (ite (< (+ k 1) (str.len s)) (str.++ "\u{5c}" (str.at s (+ k 1))) "\u{5c}")
+       (str.at s k)))))))
+; the whole translation
+(define-fun trSpec ((s String)) String (str.++ "^" (trPrefix s (str.len s)) "$"))
